@@ -42,7 +42,7 @@ CLAIMED = {
    note="2 channels, 1 call (FixedInOut 2 calls), all seven types",
    technique="bounded model checking of compiled code (Kani/CBMC SAT), twin instances, symbolic mask and data"),
  "C12": dict(cat="model_checking", ref="DESIGN.md sections 5 C12, 11",
-   text="Bit-precise: for concrete (original,max) pairs and EVERY f64 argument acceptance of both setters equals the documented predicate on all four asynchronous types, rejections carry the right payload and change nothing, relative == absolute(original*x) on getters; sync types never adjustable; set_chunk_size: every usize, twice in a row; cross-checked by a second encoding (mirsym, z3 FP) of the setter MIR with SYMBOLIC original/max.",
+   text="Bit-precise: for concrete (original,max) pairs and EVERY f64 argument acceptance of both setters equals the documented predicate on all four asynchronous types, rejections carry the right payload and change nothing, relative == absolute(original*x) on getters; sync types never adjustable; set_chunk_size: every usize, twice in a row; cross-checked by a second encoding (mirsym, z3 FP) of the MIR of both setters with SYMBOLIC original/max (absolute: full predicate; relative: the outer acceptance predicate 1/max <= x <= max, inner call cut).",
    note="quick tier fixes (original,max) to awkward pairs for Kani; symbolic original/max in the Kani thorough tier and in the mirsym cross-check; the one-ulp sliver where the two clauses of the property disagree is excluded",
    technique="bounded model checking of compiled code (Kani/CBMC SAT, IEEE-754) + SMT (z3 FP) over symbolic execution of MIR"),
  "C13": dict(cat="model_checking", ref="DESIGN.md sections 5 C13, 11",
@@ -50,9 +50,9 @@ CLAIMED = {
    note="2 channels, chunk 1-3; FFT planner stubbed; untagged panics count as C13 violations",
    technique="bounded model checking of compiled code (Kani/CBMC SAT) over symbolic buffer shapes"),
  "C14": dict(cat="model_checking", ref="DESIGN.md sections 5 C14, 11",
-   text="Index-signal observation: for every frame inside the stream |j - (tau_j*ratio + output_delay())| <= max(1,ratio)+1 with the ratio symbolic (every accepted f64) on FastFixedOut, and after a stepped change to 2.0 / 0.5 on FastFixedIn; SincFixedOut with the probe (window centre) - recorded finding F8 (reported sinc_len*ratio/2, measured ~0, confirmed natively).",
-   note="FFT types outside (delay is a property of the real FFT filter; the stub has none)",
-   technique="bounded model checking of compiled code (Kani/CBMC SAT) with index-signal observation"),
+   text="Index-signal observation: for every frame inside the stream |j - (tau_j*ratio + output_delay())| <= max(1,ratio)+1 with the ratio symbolic (every accepted f64) on FastFixedOut, and after a stepped change to 2.0 / 0.5 on FastFixedIn; SincFixedOut with the probe (window centre) - recorded finding F8 (reported sinc_len*ratio/2, measured ~0, confirmed natively). FFT types: mirsym decides on the MIR of the three output_delay() getters that the report is half the FFT output block for every value of the size fields (relative to the lemma that the overlap-add filter delays by half a block; counterexamples are replayed by a native impulse experiment on the real resamplers).",
+   note="FFT types: only the report formula is solver-decided; the true group delay of the real FFT filter is a stated lemma (checked natively by kani/examples/mdelay.rs when a counterexample is replayed), not a solver verdict",
+   technique="bounded model checking of compiled code (Kani/CBMC SAT) with index-signal observation + SMT (z3 bit-vectors) over symbolic execution of MIR for the FFT getters"),
  "C15": dict(cat="other", ref="DESIGN.md sections 5 C15, 11",
    text="mirsym executes the MIR of pack_sincs + get_sinc_interpolated(_unsafe) of the AVX/SSE f32/f64 kernels and of the scalar kernel on symbolic waves and tables (T := Real, intrinsics modelled lane-wise): result == plain dot product (z3+cvc5 unsat), logged read footprint == [index,index+len), no access outside the allocations; dispatch: make_interpolator and the three ::new pass identical argument tuples to make_sincs.",
    note="len in {8,16,24(,32,40)}, index in {0,(1,)5}, sub in {0,f-1}; NEON not compiled on this host; rounding differences are summation-order only (A-round)",
